@@ -253,6 +253,26 @@ def run(h: Harness):
                 # only record what was cached before, so still_valid tolerates fills
                 if not w2.verify(f"step[{sname}]", f"{sname}.apply on {name} population", [line, name, seedv, sname, k]):
                     break
+            # (b') lexicase selection needs a multi-objective problem: same checks, plus the list container
+            mop = MultiObjectiveProblem([False, True], lambda p: [float(len(repr(p)) % 5), float(len(repr(p)) % 3)])
+            safe(lambda: ev.evaluate(mop, pool))
+            mpool = [p for p in pool if p.has_fitness(mop)]
+            if len(mpool) >= 3:
+                w3 = Watch(h, b, mop, is_dsge, f"{name}:")
+                w3.add(mpool)
+                for sname, mk in (("lexicase", lambda: LexicaseSelection()),
+                                  ("par[lexicase,elitism]", lambda: ParallelStep([LexicaseSelection(), ElitismStep()], [2, 1])),
+                                  ("seq[lexicase,mutation]", lambda: SequenceStep(LexicaseSelection(), GenericMutationStep(1)))):
+                    given = list(mpool)
+                    k = rng.randint(1, len(mpool))
+                    st, out = safe(lambda: list(mk().apply(mop, ev, rep, r, given, k, 1)))
+                    h.seen(f"{line}:{name}:{seedv}:step:{sname}", nontrivial=st == "ok")
+                    h.count(f"step:{sname}:{st}")
+                    if [id(x) for x in given] != [id(x) for x in mpool]:
+                        h.fail(f"{name}:step[{sname}]", "input-population-list-modified",
+                               f"{sname}.apply changed the list object it was given: {len(mpool)} -> {len(given)} individuals", [line, name, seedv, sname, k])
+                    if not w3.verify(f"step[{sname}]", f"{sname}.apply on {name} population", [line, name, seedv, sname, k]):
+                        break
             # (c) GP run, every generation snapshotted, all re-validated at the end
             if gi % 2 == 0:
                 rec = GenRecorder()
